@@ -186,8 +186,12 @@ def make_serde(spec):
     if kind == "pickle":
         return _serde_mod.PickleSerde(spec.get("proto", _serde_mod.DEFAULT_PICKLE_VERSION))
     if kind == "compressed":
-        c, d = _CODECS[spec.get("codec", "zlib")]
+        codec_name = spec.get("codec", "zlib")
         inner = _serde_mod.PickleSerde(spec.get("proto", _serde_mod.DEFAULT_PICKLE_VERSION))
+        if codec_name == "zlib":
+            # the library's own defaults (zlib), not functions handed in by the harness
+            return _serde_mod.CompressedSerde(serde=inner, min_compress_len=spec.get("min", 400))
+        c, d = _CODECS[codec_name]
         return _serde_mod.CompressedSerde(compress=c, decompress=d, serde=inner,
                                           min_compress_len=spec.get("min", 400))
     if kind == "json":
@@ -296,9 +300,13 @@ class CallRec:
         return ["raise", type(self.exc).__name__, _exc_text(self.exc)]
 
 
+_ADDR = __import__("re").compile(r"0x[0-9a-fA-F]{6,}")
+
+
 def _exc_text(e):
+    """Exception text for logs and digests; memory addresses (default object reprs) are not part of a run."""
     try:
-        return str(e)[:120]
+        return _ADDR.sub("0x?", str(e))[:120]
     except Exception:
         return "?"
 
@@ -493,6 +501,11 @@ def execute(scn, hooks=()):
                     client.caches = new
             elif t == "cluster":
                 world.nodes[st["node"]].cluster = st["cluster"]
+                if isinstance(st["cluster"], dict):
+                    # DNS follows the advertisement: each advertised name resolves to the advertised address
+                    from .world import AF_INET
+                    for name, addr, _port in st["cluster"].get("nodes", ()):
+                        world.resolver[name] = [(AF_INET, addr)]
             elif t == "resolver":
                 from .world import AF_INET, AF_INET6
                 world.resolver[st["host"]] = [(AF_INET6 if f == "inet6" else AF_INET, ip)
